@@ -8,10 +8,59 @@ def groups : Nat → List Nat → List (List Nat)
   | n + 1, k :: rest => rest.take k :: groups n (rest.drop k)
   | _ + 1, [] => []
 
+mutual
+/-- argument trees in prefix form: `R <job>` resource of a job | `N` resource without source (input file) | `V` value |
+`L <k>` list/tuple of the next k trees | `D <k>` dict whose values are the next k trees -/
+partial def parseArg : List String → Option (Arg × List String)
+  | "R" :: s :: rest => s.toNat?.map fun n => (.res (some n), rest)
+  | "N" :: rest => some (.res none, rest)
+  | "V" :: rest => some (.value, rest)
+  | "L" :: k :: rest => k.toNat?.bind fun k => (parseArgs k rest).map fun r => (.seq r.1, r.2)
+  | "D" :: k :: rest => k.toNat?.bind fun k => (parseArgs k rest).map fun r => (.dict r.1, r.2)
+  | _ => none
+partial def parseArgs : Nat → List String → Option (List Arg × List String)
+  | 0, rest => some ([], rest)
+  | k + 1, rest => (parseArg rest).bind fun r => (parseArgs k r.2).map fun r' => (r.1 :: r'.1, r'.2)
+end
+
+def insertSorted (k : Nat) : List Nat → List Nat
+  | [] => [k]
+  | x :: t => if k < x then k :: x :: t else if k = x then x :: t else x :: insertSorted k t
+
+/-- `deps <self> E <k> <explicit…> C <k> <command sources…> A <k> <trees…> K <k> <trees…>` → the sorted members of
+`j._dependencies` per `jobDeps` (all calls of the job pooled: positional trees after `A`, keyword values after `K`) -/
+def handleDeps (ws : List String) : String :=
+  match ws with
+  | self :: "E" :: ke :: rest =>
+    match self.toNat?, ke.toNat? with
+    | some self, some ke =>
+      match nats? (rest.take ke), (rest.drop ke) with
+      | some ex, "C" :: kc :: rest =>
+        match kc.toNat? with
+        | some kc =>
+          match nats? (rest.take kc), (rest.drop kc) with
+          | some cs, "A" :: ka :: rest =>
+            match ka.toNat?.bind fun ka => parseArgs ka rest with
+            | some (args, "K" :: kk :: rest) =>
+              match kk.toNat?.bind fun kk => parseArgs kk rest with
+              | some (kws, []) =>
+                let d : JobDecl := { explicit := ex, cmdSources := cs, calls := [(args, kws.map fun a => ("k", a))] }
+                joinWith "," (((jobDeps self d).foldl (fun acc x => insertSorted x acc) []).map toString)
+              | _ => "bad-op"
+            | _ => "bad-op"
+          | _, _ => "bad-op"
+        | none => "bad-op"
+      | _, _ => "bad-op"
+    | _, _ => "bad-op"
+  | _ => "bad-op"
+
 /-- line: `n  ar₀ … ar_{n-1}  f₀ … f_{n-1}  (k_j d … d)  for j = 0 … n-1` — always_run flags, fails flags, and for every
 job its dependency list in the iteration order of the real `_dependencies` set.
 answer: `cycle` | `assert` | `keyerror` | `order=<jobs> exec=<jobs run, in order> skip=<jobs not run> exc=<0|1>` -/
 def handle (line : String) : String :=
+  match words line with
+  | "deps" :: ws => handleDeps ws
+  | _ =>
   match nats? (words line) with
   | some (n :: rest) =>
     let ar := rest.take n
